@@ -16,7 +16,7 @@ import (
 // are done by the keys' own implementations, never by a wrapper).
 func ruleNewKeepsConfig(w *World, r *Run, rule string) {
 	fn := w.fn(fnWitnessNew)
-	if fn == nil || len(fn.Params) != 1 {
+	if fn == nil || len(fn.Params) < 1 || (len(fn.Params) > 1 && !(len(fn.Params) == 2 && fn.Signature.Variadic() && w.variadicUnused(fn))) {
 		r.Undecided(rule, fnWitnessNew, "", "anchor not found")
 		return
 	}
